@@ -39,6 +39,8 @@ def check(sd, pid, tier="quick"):
         rc, out = sh(f"./check {pid} {tier}", "/verif")
     finally:
         sh("git -C /repo checkout -- .")
+        # leave the harness binary built from the unchanged tree again
+        sh("cargo build --offline", "/verif/harness")
     lines = [l for l in out.splitlines() if l.startswith(("VIOLATION", "OK", "KNOWN"))]
     print(f"{sd} vs {pid}: rc={rc}", " | ".join(lines)[:400])
     return rc, lines
